@@ -24,6 +24,19 @@ func extractWhereAnalyticCalls(condition string) (string, []types.WhereAnalyticC
 	callIdx := 0
 	for i < len(condition) {
 		ch := condition[i]
+		// text inside a string literal is text: name == 'lag(a)' holds no analytic call
+		if ch == '\'' || ch == '"' {
+			j := i + 1
+			for j < len(condition) && condition[j] != ch {
+				j++
+			}
+			if j < len(condition) {
+				j++
+			}
+			out.WriteString(condition[i:j])
+			i = j
+			continue
+		}
 		if isLetter(ch) {
 			start := i
 			for i < len(condition) && (isLetter(condition[i]) || isDigit(condition[i])) {
